@@ -1,0 +1,132 @@
+//! Verification hooks. Compiled only with `--cfg agdb_verif`; never part of a
+//! normal build. Add-only: nothing here changes the behaviour of the crate.
+#![allow(dead_code)]
+
+use crate::DbError;
+use crate::StorageData;
+use crate::storage::Storage;
+use crate::storage::StorageIndex;
+use std::cell::RefCell;
+
+type FsHook = Box<dyn FnMut(&'static str, &'static str, u64, &[u8])>;
+
+thread_local! {
+    static FS_HOOK: RefCell<Option<FsHook>> = const { RefCell::new(None) };
+}
+
+/// Installs (or removes) a per-thread callback invoked immediately *before*
+/// every mutating file system call of `FileStorage` / `WriteAheadLog`:
+/// `(file, op, pos, bytes)` with `file` in {"data", "wal"} and `op` in
+/// {"write", "append", "set_len"} (for `set_len`, `pos` is the new length).
+/// `("data", "read_locked", pos, [])` is reported while the shared read
+/// handle's mutex is held.
+pub fn set_fs_hook(hook: Option<FsHook>) {
+    FS_HOOK.with(|h| *h.borrow_mut() = hook);
+}
+
+pub(crate) fn fs_event(file: &'static str, op: &'static str, pos: u64, bytes: &[u8]) {
+    FS_HOOK.with(|h| {
+        let taken = h.borrow_mut().take();
+        if let Some(mut f) = taken {
+            f(file, op, pos, bytes);
+            let mut slot = h.borrow_mut();
+            if slot.is_none() {
+                *slot = Some(f);
+            }
+        }
+    });
+}
+
+/// Public wrapper around the crate-private record allocator `Storage<D>`.
+pub struct VStorage<D: StorageData>(Storage<D>);
+
+impl<D: StorageData> VStorage<D> {
+    pub fn new(name: &str) -> Result<Self, DbError> {
+        Ok(Self(Storage::new(name)?))
+    }
+
+    pub fn with_data(data: D) -> Result<Self, DbError> {
+        Ok(Self(Storage::with_data(data)?))
+    }
+
+    pub fn insert_bytes(&mut self, bytes: &[u8]) -> Result<u64, DbError> {
+        Ok(self.0.insert_bytes(bytes)?.0)
+    }
+
+    pub fn insert_bytes_at(&mut self, index: u64, offset: u64, bytes: &[u8]) -> Result<(), DbError> {
+        self.0.insert_bytes_at(StorageIndex(index), offset, bytes)
+    }
+
+    pub fn move_at(&mut self, index: u64, from: u64, to: u64, size: u64) -> Result<(), DbError> {
+        self.0.move_at(StorageIndex(index), from, to, size)
+    }
+
+    pub fn remove(&mut self, index: u64) -> Result<(), DbError> {
+        self.0.remove(StorageIndex(index))
+    }
+
+    pub fn replace_with_bytes(&mut self, index: u64, bytes: &[u8]) -> Result<(), DbError> {
+        self.0.replace_with_bytes(StorageIndex(index), bytes)
+    }
+
+    pub fn resize_value(&mut self, index: u64, new_size: u64) -> Result<(), DbError> {
+        self.0.resize_value(StorageIndex(index), new_size)
+    }
+
+    pub fn optimize_storage(&mut self) -> Result<(), DbError> {
+        self.0.optimize_storage()
+    }
+
+    pub fn value_as_bytes(&self, index: u64) -> Result<Vec<u8>, DbError> {
+        Ok(self.0.value_as_bytes(StorageIndex(index))?.to_vec())
+    }
+
+    pub fn value_as_bytes_at(&self, index: u64, offset: u64) -> Result<Vec<u8>, DbError> {
+        Ok(self.0.value_as_bytes_at(StorageIndex(index), offset)?.to_vec())
+    }
+
+    pub fn value_as_bytes_at_size(&self, index: u64, offset: u64, size: u64) -> Result<Vec<u8>, DbError> {
+        Ok(self
+            .0
+            .value_as_bytes_at_size(StorageIndex(index), offset, size)?
+            .to_vec())
+    }
+
+    pub fn value_size(&self, index: u64) -> Result<u64, DbError> {
+        self.0.value_size(StorageIndex(index))
+    }
+
+    pub fn len(&self) -> u64 {
+        self.0.len()
+    }
+
+    pub fn transaction(&mut self) -> u64 {
+        self.0.transaction()
+    }
+
+    pub fn commit(&mut self, id: u64) -> Result<(), DbError> {
+        self.0.commit(id)
+    }
+
+    /// Record table as `(index, pos, size)` for every slot (slot 0 included).
+    pub fn records(&self) -> Vec<(u64, u64, u64)> {
+        self.0.verif_records()
+    }
+
+    /// Free regions as `(pos, size)` in position order.
+    pub fn free_regions(&self) -> Vec<(u64, u64)> {
+        self.0.verif_free_regions()
+    }
+
+    pub fn transactions(&self) -> u64 {
+        self.0.verif_transactions()
+    }
+
+    pub fn data(&self) -> &D {
+        self.0.verif_data()
+    }
+
+    pub fn data_mut(&mut self) -> &mut D {
+        self.0.verif_data_mut()
+    }
+}
